@@ -38,6 +38,12 @@ func runC16(c *core.Ctx) {
 	rec := bw.NewRecorder()
 	req := &bw.Requestor{}
 	noneRate := []int{0, 0, 10, 40}[t.Draw(4)]
+	// fault intensity of this run (swarm style; derived from the draws above so that recorded tapes keep
+	// their meaning): with a low weight for cuts and drops most downloads finish while stalls, aborts,
+	// concurrent downloads and queued requests are still in play
+	faultW := []int{10, 3, 1}[(steps+concurrent)%3]
+	// queueAhead: the next request is added while the current one is still in progress
+	queueAhead := (steps+nBlocks)%2 == 0
 	req.Plan = func(n int) string { return "ok" }
 	m := bitcoin_reader.NewBlockManager(rec, req, concurrent, delay)
 	// stalled goroutine faults: the code's marked scheduling points may hold a goroutine until released
@@ -155,6 +161,12 @@ func runC16(c *core.Ctx) {
 					s.Returned = true
 					s.Result = err
 					if err == nil {
+						if handlerOK[s.Hash] {
+							c.Probe("two-successful-downloads-of-one-block")
+							if nextBlock < len(blocks) || len(requests) > 1 && requests[len(requests)-1].blk.Hash != s.Hash {
+								c.Probe("two-successful-downloads-with-another-request-queued")
+							}
+						}
 						handlerOK[s.Hash] = true
 					}
 					c.Event("source%d handler returned %s", s.N, errShortP(err))
@@ -220,9 +232,9 @@ func runC16(c *core.Ctx) {
 		if idle {
 			check()
 		}
-		if idle && (cur == nil || len(cur.signals) > 0 || cur.left) {
+		if idle && (cur == nil || len(cur.signals) > 0 || cur.left || queueAhead && faulty && t.Chance(1, 6)) {
 			if nextBlock < len(blocks) && !interrupted {
-				addRequest()
+				addRequest() // with queueAhead: a second request waits in the manager's queue
 				return
 			}
 		}
@@ -360,6 +372,8 @@ func runC16(c *core.Ctx) {
 				w = 1
 			case a.name == "requester aborts":
 				w = 2
+			case strings.Contains(a.name, "cuts stream") || strings.Contains(a.name, "drops"):
+				w = faultW
 			}
 			weights = append(weights, w)
 		}
